@@ -25,7 +25,8 @@ func genSegment(p *PRNG) string {
 	case 1:
 		return "s"
 	case 2:
-		return PickOne(p, []string{"home", "pepe.jpg", "Ünïcödé", "日本語", " ", ".", "..", "100%", "a%%b.txt", "My%20Report.pdf", "%s%d%v", "%!(NOVERB)", "2024\\report.txt", "a\\b", "\\", "c:\\dir"})
+		return PickOne(p, []string{"home", "pepe.jpg", "Ünïcödé", "日本語", " ", ".", "..", "100%", "a%%b.txt", "My%20Report.pdf", "%s%d%v", "%!(NOVERB)", "2024\\report.txt", "a\\b", "\\", "c:\\dir",
+			"cafe\u0301", "caf\u00e9", "\u212b", "\u00c5", "\u2126", "\u1112\u1161\u11ab", "\ud55c", "100%25.txt", "%41", "a%2Fb"}) // decomposed and composed spellings, singletons, jamo, valid percent escapes
 	case 3:
 		return string(p.Bytes(1 + p.Intn(6))) // arbitrary bytes (may contain '/', split by the code)
 	case 4:
